@@ -1,7 +1,7 @@
 (* C09 -- Schedules conclude, repeat and report exhaustion exactly as documented
    Property theorems only: each proof is one application of a lemma proved in Proofs/, followed by Print Assumptions. *)
 From Coq Require Import ZArith List Bool.
-From CS Require MSTerm OnlineFlags Flags RevConv RevBridge4 RevolveRun PassRepeat Online DiskRun DiskBridge3 HRevRun HRevTop GenLang GenBasic.
+From CS Require MSTerm OnlineFlags Flags RevConv RevBridge4 RevolveRun PassRepeat Online DiskRun DiskBridge3 HRevRun HRevTop GenLang GenBasic GenLang2 GenTwo.
 From CS Require Import Actions NAdvance Multistage Exec Sched RunFacts Projections BasicInv MultistageRun AllocTotal TLBridge MixBridge.
 Import ListNotations.
 Open Scope Z_scope.
@@ -17,6 +17,17 @@ Theorem C09_basic_source_is_model :
 Proof. exact (@GenBasic.basic_from_start). Qed.
 Print Assumptions C09_basic_source_is_model.
 End M_C09_basic_source_is_model.
+
+(* THE MODEL OF TwoLevelCheckpointSchedule IS THE SOURCE: GenTwo.two_prog_model is the program (generator language GenLang2: named locals, the snapshots stack, //, *, min, n_advance, assert, del) that harness/translate.py produces from TwoLevelCheckpointSchedule._iterator; Gen/TwoLevelGen.v re-translates the current source on every run and proves it equal to that term by conversion.  Resuming that program request by request from the freshly constructed object gives, for every period, unit count, storage and trajectory the constructor accepts and under EVERY history of next() and finalize(k) calls, exactly the observations (outcome, n, r, max_n, is_exhausted) of the hand-written machine Online.run_ops (class KTwo) -- so the TwoLevel theorems of this file, stated on the extracted model, are theorems about the translated source (n_advance itself is tied by Gen/NAdvanceGen.v) *)
+Module M_C09_twolevel_source_is_model.
+Import GenTwo.
+Theorem C09_twolevel_source_is_model :
+  forall (p bs : Z) (st : Actions.storage) (tr : NAdvance.traj) (ops : list Online.op) (s : Online.st),
+         Online.construct (Online.KTwo p bs st tr) = Actions.Ok s ->
+         grun_ops (cfg_of p bs st tr) [GenLang2.FS two_prog_model] g_init ops = Online.run_ops s ops.
+Proof. exact (@GenTwo.two_from_start). Qed.
+Print Assumptions C09_twolevel_source_is_model.
+End M_C09_twolevel_source_is_model.
 
 (* FLAGS, all thirteen classes, every parameter tuple the constructor accepts, every history of next() / finalize(k) requests (ops), any executor parameters: before the first request is_exhausted = is_running = False; after every next() is_running = True; is_exhausted after a request = (the final action of the class has been yielded so far) -- final_action: EndForward for None, EndReverse for the offline classes and SingleDisk(move), none for SingleMemory, SingleDisk(copy), TwoLevel; no action is yielded once the final action has been seen (only StopIteration / an exception), and finalize never changes the flag. flags_hist is the trace rule, defined in Proofs/OnlineFlags.v *)
 Module M_C09_flags.
